@@ -160,9 +160,139 @@ def rf23(run):
                                   '%s rewrites %s to the %s extension alone, but that is not the same function (e.g. on inputs with bit '
                                   '%d set); arithmetic allows: %s' % (f.name, desc, decision, min(w, w2) - 1, sorted(allowed) or 'neither'),
                                   line=head['l'])
+    nsites += _rf23_helpers(run, rule, tu, preds)
     if nsites < 2:
         run.analysis_broken(rule, 'only %d extension-folding sites recognised (copy_prop and combine_exts expected)' % nsites)
     return nsites
+
+
+def _rf23_helpers(run, rule, tu, preds):
+    """the decision moved into a helper `code2 = h (inner_code, outer_code)`: a function that calls get_ext_params for two of
+    its parameters and returns one of them (or something else for "no folding").  Its `if (…) return …;` statements are the
+    decision list; which parameter is the outer extension is read off the callers (the instruction whose code is assigned
+    the result / whose operand is rewired)."""
+    n = 0
+    for h in tu.func_list:
+        if h.body is None or not h.file.startswith('/repo') or len(h.params) < 2:
+            continue
+        calls = [x for x in h.walk() if x['k'] == 'CallExpr' and x.get('callee') == 'get_ext_params']
+        if len(calls) != 2:
+            continue
+        pnames = [q['n'] for q in h.params]
+        info = {}
+        for c in calls:
+            par = h.parent_of(c)
+            while par is not None and par['k'] in F.CASTS + ('ParenExpr',):
+                par = h.parent_of(par)
+            a = F.call_args(c)
+            if par is None or par['k'] != 'BinaryOperator' or par['op'] != '=' or F.strip(a[1])['k'] != 'UnaryOperator':
+                info = None
+                break
+            info[F.src(F.strip(a[0]))] = (F.src(F.strip(par['c'][0])), F.src(F.strip(F.strip(a[1])['c'][0])))
+        if not info or set(info) - set(pnames) or len(info) != 2:
+            continue
+        # decision list
+        body = F.kids(h.body) if h.body['k'] == 'CompoundStmt' else [h.body]
+        branches = []
+        ok_shape = True
+        for st in body:
+            if st['k'] == 'IfStmt' and st['c'][2] is None:
+                rets = [y for y in F.walk(st['c'][1]) if y['k'] == 'ReturnStmt']
+                if len(rets) == 1 and F.kids(rets[0]):
+                    branches.append((st['c'][0], F.src(F.strip(F.kids(rets[0])[0]))))
+                    continue
+                ok_shape = False
+            elif st['k'] == 'ReturnStmt' and F.kids(st):
+                branches.append((None, F.src(F.strip(F.kids(st)[0]))))
+            elif st['k'] in ('DeclStmt', 'NullStmt'):
+                continue
+            else:
+                ok_shape = False
+        if not ok_shape or not branches:
+            run.analysis_broken(rule, '%s: helper deciding on a pair of extensions has statements other than `if (…) return …;`' % h.name)
+            continue
+        # callers: which argument is the outer extension
+        outer_idx = set()
+        callers = 0
+        for g in tu.func_list:
+            if g.body is None or g is h:
+                continue
+            for c in g.walk():
+                if c['k'] != 'CallExpr' or c.get('callee') != h.name:
+                    continue
+                callers += 1
+                run.functions_analysed.add(('gen', g.name))
+                inits = {}
+                for y in g.walk():
+                    if y['k'] == 'DeclStmt':
+                        for d in y.get('decls', []):
+                            if d.get('init') is not None:
+                                inits[d['n']] = F.src(F.strip(d['init']))
+                args = []
+                for a in F.call_args(c):
+                    t = F.src(F.strip(a))
+                    args.append(inits.get(t, t))
+                # the outer instruction: `O->ops[1] = I->ops[1]`
+                outer = None
+                for y in g.walk():
+                    if y['k'] == 'BinaryOperator' and y['op'] == '=':
+                        l, r = F.src(F.strip(y['c'][0])), F.src(F.strip(y['c'][1]))
+                        if l.endswith('->ops[1]') and r.endswith('->ops[1]') and l != r:
+                            outer = l[:-len('->ops[1]')]
+                        if l.endswith('->ops[1].u.var') and r.endswith('->ops[1].u.var') and l != r:
+                            outer = l[:-len('->ops[1].u.var')]
+                if outer is None:
+                    run.analysis_broken(rule, '%s: cannot tell the outer extension at the call of %s' % (g.name, h.name))
+                    continue
+                idx = [k for k, t in enumerate(args) if t == outer + '->code']
+                if len(idx) != 1:
+                    run.analysis_broken(rule, '%s: arguments of %s not recognised (%s)' % (g.name, h.name, ', '.join(args)))
+                    continue
+                outer_idx.add(idx[0])
+        if callers == 0:
+            continue
+        run.functions_analysed.add(('gen', h.name))
+        if len(outer_idx) != 1:
+            run.ob(rule, (h.name, 'callers'), len(outer_idx) == 0, {'helper': h.name, 'outer extension passed at positions': sorted(outer_idx)})
+            if outer_idx:
+                run.violation(rule, h, 'callers of %s disagree' % h.name, 'the callers of %s pass the outer extension at different argument '
+                              'positions (%s): one of them folds the pair the wrong way round' % (h.name, sorted(outer_idx)), line=h.line)
+            continue
+        po = pnames[next(iter(outer_idx))]
+        pi = [q for q in info if q != po][0]
+        if po not in info:
+            run.analysis_broken(rule, '%s: the outer parameter is not analysed by get_ext_params' % h.name)
+            continue
+        (w_o, s_o), (w_i, s_i) = info[po], info[pi]
+        n += callers
+        for w, s_, w2, s2 in itertools.product(WIDTHS, (0, 1), WIDTHS, (0, 1)):
+            env = {w_o: w, s_o: s_, w_i: w2, s_i: s2}
+            decision = None
+            for cond, ret in branches:
+                if cond is not None and 'get_ext_params' in F.src(cond):
+                    continue   # "not an extension": false for the six opcodes considered here
+                v = True if cond is None else preds.eval(cond, env, frozenset())
+                if v is None:
+                    decision = 'unknown'
+                    break
+                if v:
+                    decision = 'outer' if ret == po else 'inner' if ret == pi else 'none'
+                    break
+            if decision == 'unknown':
+                run.analysis_broken(rule, '%s: folding condition %s not evaluable' % (h.name, F.src(cond)[:80]))
+                break
+            allowed = truth(w, s_, w2, s2)
+            ok = decision in (None, 'none') or decision in allowed
+            desc = '%sext%d(%sext%d(x))' % ('' if s_ else 'u', w, '' if s2 else 'u', w2)
+            run.ob(rule, (h.name, h.line, w, s_, w2, s2), ok,
+                   {'site': '%s:%d %s' % (h.relfile(), h.line, h.name), 'pair': desc, 'code keeps': decision or 'both',
+                    'arithmetic allows': sorted(allowed) or ['neither']})
+            if not ok:
+                run.violation(rule, h, 'fold %s -> %s' % (desc, decision),
+                              '%s (used by %d callers) rewrites %s to the %s extension alone, but that is not the same function (e.g. on inputs '
+                              'with bit %d set); arithmetic allows: %s' % (h.name, callers, desc, decision, min(w, w2) - 1, sorted(allowed) or 'neither'),
+                              line=h.line)
+    return n
 
 
 def rf25(run, units=('gen', 'mir')):
